@@ -7,7 +7,7 @@ from vlib.core import write_cfg, count_lines, CheckerError
 LEVEL = "model_checking"
 META = {
     "technique": "TLA+ specs Fold.tla / SplitTrim.tla (statement + byte-level model of the scan) model-checked by TLC; every enumerated input replayed on the Go functions with the spec's verdict; recorded real calls re-judged by TLC",
-    "level_text": "Fold.tla states the reference definition over runes <<fold orbit, member>> with a UTF-8 length per member (K/k/Kelvin sign 1-1-3 bytes, S/s/long s 1-1-2, the three sigmas, two-member and caseless runes) and models the scan of ContainsFold on the byte level (slices in the middle of a rune, U+FFFD decoding); TLC proves scan = definition for all pairs within the bounds and finds the counterexample of the pre-fix scan. All pairs (s up to 4 runes, sub up to 3) over each 6-rune alphabet, and all strings up to 6-7 tokens x 5 separators for SplitTrimmed, are emitted with the spec's verdict and replayed on the real functions under several concretisations; the statement's own Go references (strings.EqualFold on byte windows, strings.Split/TrimSpace, Contains(ToLower) on ASCII) decide and must agree with the spec. Random calls over a rune pool rich in 3- and 4-member orbits of mixed byte lengths are recorded, abstracted and re-judged by TLC; a larger random sweep is compared with the references in Go.",
+    "level_text": "Fold.tla states the reference definition over runes <<fold orbit, member>> with a UTF-8 length per member (K/k/Kelvin sign 1-1-3 bytes, S/s/long s 1-1-2, the three sigmas, two-member and caseless runes) and models the scan of ContainsFold on the byte level (slices in the middle of a rune, U+FFFD decoding); TLC proves scan = definition for all pairs within the bounds and finds the counterexample of the pre-fix scan. All pairs (s up to 4 runes, sub up to 3; 3 and 3 in the quick tier) over the 6-rune alphabets built around each 3-member orbit (plus a mixed-orbit and an ASCII alphabet), and all strings up to 6-7 tokens x 5 separators for SplitTrimmed, are emitted with the spec's verdict and replayed on the real functions under several concretisations; the statement's own Go references (strings.EqualFold on byte windows, strings.Split/TrimSpace, Contains(ToLower) on ASCII) decide and must agree with the spec. Random calls over a rune pool rich in 3- and 4-member orbits of mixed byte lengths are recorded, abstracted and re-judged by TLC; a larger random sweep is compared with the references in Go.",
     "level_note": "Exhaustive only within the stated bounds and alphabets; beyond them seeded sampling. The abstraction rune -> <<orbit, member, byte length>> and the concretisation tables are trusted (cross-checked against package unicode at start-up).",
 }
 
@@ -172,7 +172,7 @@ def run(ctx):
     def fold_gen(dd, name, a, b, workers, parts):
         cfg = "FoldGen_%s.cfg" % name
         write_cfg(dd / cfg, "Spec", dict(base, Alphabets="<- " + name, MaxS=a, MaxSub=b),
-                  invariants=["Emit"] + FOLD_INV)
+                  invariants=["Emit", "ImplIsRef"] if q else ["Emit"] + FOLD_INV)
         tlc_locked(ctx, dd, "FoldGen", cfg, workers=workers, label="fold-gen-" + name, timeout=1800)
         vec = dd / ("fold_%s.ndjson" % name)
         (dd / "fold_vectors.ndjson").rename(vec)
